@@ -721,7 +721,7 @@ static int vi_motion(int *row, int *off)
 		break;
 	case '$':
 		if (cnt > 1 && lbuf_len(xb))	/* the end of the cnt-1'th line below */
-			*row = MIN(*row + cnt - 1, lbuf_len(xb) - 1);
+			*row = cnt - 1 < lbuf_len(xb) - *row ? *row + cnt - 1 : lbuf_len(xb) - 1;
 		*off = lbuf_eol(xb, *row);
 		break;
 	case '|':
